@@ -356,4 +356,4 @@ class TransformedMessage(MessageInterface):
         return self.base_message.log_base_measure
 
     def zeros_like(self) -> "MessageInterface":
-        return self ** 0.
+        return self.with_base(self.base_message.zeros_like())
